@@ -1,6 +1,6 @@
 PROP = dict(
     gen=["accessors", "layouts"],
-    proof_files=["Properties/C11.v", "Proofs/AccessorsProofs.v", "Proofs/AccessorTables.v", "Proofs/CombinerProofs.v", "Spec/CombinerSpec.v"],
+    proof_files=["Properties/C11.v", "Proofs/AccessorsProofs.v", "Proofs/AccessorTables.v", "Proofs/CombinerProofs.v", "Proofs/CombinerRound5.v", "Spec/CombinerSpec.v"],
     model_files=["Model/Accessors.v", "Model/AccessorsRun.v", "Model/Combiner.v", "Model/CombinerRun.v"],
     trusted=["Gen/AccessorTables.v: complete 256-row tabulation of MessageState.String and of DataCoding.Encoding() != nil from the running code (dumper: harness/gen_accessors.go)",
              "Gen/PduLayouts.v: layouts and request->response pairs (dumper: harness/pdu_common.go)",
